@@ -548,6 +548,15 @@ func (nc *nodeCase) oracleAfterEvent(op string, r procResult) {
 				// this link did reach the node (forged slots are C17's concern, not C18's)
 				if nc.recvValid[nc.nm.name(sl.SourceHash)+">"+name][slot] {
 					nc.admitted[fmt.Sprintf("%d|%s|%s", slot, nc.nm.name(sl.SourceHash), name)] = true
+				} else if k := fmt.Sprintf("S%d|%s|%s", slot, nc.nm.name(sl.SourceHash), name); !nc.justSeen[k] {
+					// "invalid signatures and signatures from non-validators never count": a slot
+					// of the checkpoint tree for which no validly signed vote ever reached the node
+					nc.justSeen[k] = true
+					suffix := ""
+					if nc.restarted {
+						suffix = "-after-restart"
+					}
+					nc.c.Fail(sig("C17", "invalid-vote-counted"+suffix), fmt.Sprintf("after %s: checkpoint %s records a vote of validator slot %d for the link from %s, but no validly signed vote for that link ever reached the node", op, name, slot, nc.nm.name(sl.SourceHash)))
 				}
 			}
 		}
